@@ -47,3 +47,5 @@ pub async fn child_wait(child: process::Child) -> io::Result<process::ExitStatus
 // For trait impls and fallback.
 #[path = "unix.rs"]
 mod unix;
+
+pub(crate) use unix::set_nonblocking;
